@@ -268,6 +268,13 @@ func (r *Report) Decide(verifDir string, replay func(o *Obligation) (path string
 	if len(r.Bounded) > 0 {
 		cov["explanation"] = "obligations/discharged count solver- or census-discharged obligations only; the entries under 'bounded' are bounded stand-ins (not counted as proved): " + strings.Join(r.Bounded, "; ")
 	}
+	// the level reported is the level claimed for this property in MANIFEST.json; a property whose
+	// statement is only partly within reach of contracts is claimed (and reported) as `other`
+	if cat, txt := manifestLevel(verifDir, r.Prop); cat != "" && cat != "proof" {
+		level = cat
+		ex, _ := cov["explanation"].(string)
+		cov["explanation"] = strings.TrimSpace("The obligations below are proof obligations on the real functions (contracts, SMT-discharged), but they cover only part of the property as stated: " + txt + " " + ex)
+	}
 	for k, v := range r.Extra {
 		cov[k] = v
 	}
@@ -419,4 +426,31 @@ func staleIsUnexported(e string) bool {
 	k := strings.LastIndex(key, ".")
 	name := key[k+1:]
 	return name != "" && name[0] >= 'a' && name[0] <= 'z'
+}
+
+// manifestLevel reads the level claimed for a property from MANIFEST.json.
+func manifestLevel(verifDir, prop string) (category, text string) {
+	b, err := os.ReadFile(filepath.Join(verifDir, "MANIFEST.json"))
+	if err != nil {
+		return "", ""
+	}
+	var m struct {
+		Checks []struct {
+			PropertyID   string `json:"property_id"`
+			LevelClaimed struct {
+				Category string `json:"category"`
+				Text     string `json:"text"`
+			} `json:"level_claimed"`
+			LevelNote string `json:"level_note"`
+		} `json:"checks"`
+	}
+	if json.Unmarshal(b, &m) != nil {
+		return "", ""
+	}
+	for _, c := range m.Checks {
+		if c.PropertyID == prop {
+			return c.LevelClaimed.Category, c.LevelNote
+		}
+	}
+	return "", ""
 }
